@@ -604,7 +604,9 @@ mod matching {
         EM: EdgeMatcher<G0, G1>,
     {
         if st.0.is_complete() {
-            return Some(st.0.mapping.clone());
+            // Only an empty `g0` is complete on entry: its single (empty) mapping is
+            // reported once, by consuming the initial frame.
+            return stack.pop().map(|_| st.0.mapping.clone());
         }
 
         // A "depth first" search of a valid mapping from graph 1 to graph 2
